@@ -92,6 +92,71 @@ def h_group(a, inst):
     return ot == want
 
 
+@harness(instances=lambda tier: [{"N": n, "K": k, "how": h} for n in range(1, (3 if tier == "quick" else 4) + 1) for k in (0, 1, 2)
+                                 for h in ("skip", "element_at") if k < n],
+         v=I(0, 3, n=lambda i: i["N"]), g=I(0, 2, n=lambda i: i["N"]), tg=I(0, 2), term=I(0, 2), m=I(1, 3), timeout=(120, 900))
+def h_group_feedback(a, inst):
+    """the duration of a group is derived from the group itself (the group closes with its own (K+1)-th element: the
+    'close after n items' idiom), so the duration observer and the consumer sit on the same subject.  Whatever the order in
+    which the two are served: no element may be lost or duplicated, per key the groups in opening order carry exactly the
+    key's elements in arrival order, every group but the key's last has completed, the source's terminal reaches every group
+    that is still open and the outer sequence, and nothing escapes into the source."""
+    sch = make_scheduler()
+    xs = list(a.v)
+    ts = times_from_gaps(a.g)
+    tt = (ts[-1] if ts else 210) + a.tg
+    src = sch.create_hot_observable(messages(xs, a.g, a.term, a.tg))
+    gl = Groups(sch)
+    key = lambda x: x % a.m  # noqa: E731
+    k = inst["K"]
+    if inst["how"] == "skip":
+        dur = lambda grp: grp.pipe(ops.skip(k))  # noqa: E731
+    else:
+        dur = lambda grp: grp.pipe(ops.element_at_or_default(k, None))  # noqa: E731
+    try:
+        res = sch.start(lambda: src.pipe(ops.group_by_until(key, None, dur), ops.do_action(gl.attach)), disposed=260)
+    except Exception:  # noqa: BLE001
+        return False  # an exception escaped into the source's notification
+    outer = rec_tuples(res.messages)
+    per_key = {}
+    for grp in gl.groups:
+        per_key.setdefault(grp["key"], []).append(grp)
+    want_keys = {}
+    for x, t in zip(xs, ts):
+        want_keys.setdefault(key(x), []).append((t, x))
+    if set(per_key) != set(want_keys):
+        return False
+    for kk, grps in per_key.items():
+        got = [it for grp in grps for it in grp["items"]]
+        if got != want_keys[kk]:
+            return False  # lost, duplicated, misrouted or reordered element
+        for grp in grps[:-1]:
+            if grp["end"] is None or grp["end"][1] != "C":
+                return False  # an earlier group of the key was replaced without having completed
+        for grp in grps:
+            if len(grp["items"]) > k + 1:
+                return False  # the group outlived its duration (it closes with its (K+1)-th element)
+        end = grps[-1]["end"]
+        if a.term == 0:
+            if end is not None and (end[1] != "C" or len(grps[-1]["items"]) != k + 1):
+                return False
+        elif end is None or end[0] > tt:
+            return False  # the source's terminal did not reach an open group
+        elif a.term == 1 and end[1] != "C":
+            return False
+        elif a.term == 2 and not (end == (tt, "E") or (end[1] == "C" and len(grps[-1]["items"]) == k + 1)):
+            return False
+    ot = [(t, kd) for t, kd, _ in outer]
+    opens = sorted(grp["open_t"] for grp in gl.groups)
+    want = [(t, "N") for t in opens]
+    if a.term == 1:
+        want.append((tt, "C"))
+    elif a.term == 2:
+        want.append((tt, "E"))
+    cover("ran")
+    return ot == want
+
+
 @harness(instances=lambda tier: [{"N": n, "idx": i, "ret": r} for n in range(0, (3 if tier == "quick" else 4) + 1) for i in (0, 1)
                                  for r in ("bool", "int", "none") if not (n == 0 and r != "bool")],
          v=I(0, 3, n=lambda i: i["N"]), g=I(0, 2, n=lambda i: i["N"]), tg=I(0, 2), term=I(0, 2), p=I(0, 3), m=I(1, 2), timeout=(90, 900))
@@ -129,13 +194,16 @@ ENCODED = ["reactivex/operators/_groupbyuntil.py", "reactivex/operators/_groupby
            "reactivex/operators/_partition.py"]
 BOUNDS = {"quick": "N<=3 elements (N<=2 with expiring groups) with values in [0,3], key x % m (m in 1..3: one to three keys), element mapper 10+x, gaps in [0,3], "
                    "terminal none/completed/error; group durations that fire (by emitting or by completing empty) d in 1..3 ticks after "
-                   "the group was emitted, or never; partition with predicate x >= p and the indexed form, answering with a bool, an int or None / a value",
-          "thorough": "N<=4"}
+                   "the group was emitted, or never; group durations derived from the group itself (grp.skip(K) / grp.element_at_or_default(K), K in 0..2: "
+                   "the group closes with its own (K+1)-th element; N<=3, values in [0,3], keys x % m, m in 1..3); partition with predicate x >= p and the indexed form, answering with a bool, an int or None / a value",
+          "thorough": "N<=4 (also for group-derived durations)"}
 ASSUMES = ["Tick/Span time stub", "an element arriving in the very instant in which its key's group expires still belongs to that group "
            "(the hot element was scheduled before the duration timer)"]
 MANIFEST = {
     "text": "Bounded symbolic model checking: values (hence keys), gaps, terminal kind, modulus and expiry delays are solver variables; "
             "every emitted group gets its own recorder and the (key, opening instant, elements with times, termination) of every "
-            "group must equal the reference routing.",
+            "group must equal the reference routing.  With durations derived from the group itself (consumer and duration observer on "
+            "one subject) the oracle is order-agnostic: no element lost, duplicated or misrouted, replaced groups completed, the "
+            "source's terminal reaches every open group and the outer sequence, nothing escapes into the source.",
     "note": "N<=3; <=3 keys; expiry 1..3 ticks.",
 }
